@@ -21,7 +21,8 @@ from .c08 import NPERM, entity_table, form_sizes
 
 PROP = "C07"
 RULE = (
-    "A pool of compiled kernels (Hypothesis-generated cell/facet/interior-facet forms of arity 0-2 and expression kernels with and "
+    "A pool of compiled kernels (Hypothesis-generated cell/facet/interior-facet forms of arity 0-2, template instances, sum-factorised "
+    "tensor-product kernels, part='diagonal' kernels and expression kernels with and "
     "without arguments) driven by a Hypothesis RuleBasedStateMachine whose rules call kernel k on input set s into an A pre-filled "
     "with zeros / random values / huge values / a previous result, repeat calls, interleave kernels, and run batches of calls "
     "concurrently from a thread pool on disjoint A (cffi releases the GIL). Oracles: (1) equal (k, s, A_before) gives "
@@ -86,25 +87,30 @@ def build_pool(specs_list, wd):
                     entries.append(Entry(f"expr{k}/in{s}", fn, shape, np.dtype(st_), False))
                 src_mod = mod
             else:
-                fr = formcheck.FormRunner(spec, wd, scalar_type=st_, name=f"pf{k}")
+                opts = dict(spec.get("jit_options") or {})
+                fr = formcheck.FormRunner(spec, wd, scalar_type=st_, options=opts, name=f"pf{k}")
                 if fr.is_zero_form():
                     continue
                 fr.compile()
+                diag = opts.get("part") == "diagonal" and len(spec["args"]) == 2
                 src_mod = fr.module
                 for itype, sid in fr.declared_groups():
                     width = 2 if itype == "interior_facet" else 1
                     dims = [e.dim for e in fr.fd.argument_elements]
                     shape = tuple(width * n for n in dims)
+                    if diag:
+                        shape = shape[:1]
                     nent = formcheck.entity_count(spec["cell"], itype)
                     for s in range(2):
                         data = inputs.FormData(fr.built, spec["data_seed"] + 31 * s, complex_=fr.complex)
                         ent = (nent - 1, 0)
 
-                        def fn(A0, fr=fr, itype=itype, sid=sid, data=data, ent=ent):
-                            A, problems, n, _ = fr.run_group(itype, sid, data, entity=ent, A0=A0)
+                        def fn(A0, fr=fr, itype=itype, sid=sid, data=data, ent=ent, diag=diag):
+                            A, problems, n, _ = fr.run_group(itype, sid, data, entity=ent, A0=A0, diagonal=diag)
                             return A, problems
 
-                        entries.append(Entry(f"form{k}/{itype}/{sid}/in{s}", fn, shape, np.dtype(st_), fr.complex))
+                        label = f"form{k}/{itype}/{sid}/in{s}" + ("".join(f"/{a}={b}" for a, b in sorted(opts.items())) if opts else "")
+                        entries.append(Entry(label, fn, shape, np.dtype(st_), fr.complex))
             # (5) no writable static storage besides descriptors
             obj = kernels.cc_compile(src_mod.source, wd, f"obj{k}", cflags=("-O0", "-w"), shared=False)
             out = subprocess.run(["nm", str(obj)], capture_output=True, text=True).stdout
@@ -225,7 +231,7 @@ def tsan_forms(pool_specs, wd, max_n):
         if built.form.empty():
             continue
         try:
-            header, source, names = kernels.generate_code([built.form], {"scalar_type": "float64"})
+            header, source, names = kernels.generate_code([built.form], dict(spec.get("jit_options") or {}, scalar_type="float64"))
         except Exception:
             continue
         fd = refeval.compute_form_data(built.form, "float64")
@@ -248,7 +254,15 @@ def shard(shard, nshards, npool, nhist, nsteps, ntsan, seed):
             return Outcome("ok", case_id=spec_hash(strategies.strip_meta(spec)), nontrivial=False, classes=["pool-spec"])
 
         tmp = ShardResult()
-        drive(st.one_of(strategies.form_specs(P_POOL), strategies.form_specs(P_POOL), strategies.expr_specs()), collect, npool, (PROP, seed, shard, "pool"), tmp)
+        from .c10 import P_DIAG, P_SUMFACT
+
+        def with_options(strategy, options):
+            return strategy.map(lambda s_: dict(s_, jit_options=options))
+
+        drive(st.one_of(strategies.forms(P_POOL), strategies.forms(P_POOL), strategies.expr_specs(),
+                        with_options(strategies.form_specs(dict(P_SUMFACT, arities=[1, 2])), {"sum_factorization": True}),
+                        with_options(strategies.form_specs(dict(P_DIAG, measures=["dx", "ds"])), {"part": "diagonal"})),
+              collect, npool, (PROP, seed, shard, "pool"), tmp)
         leave_crumb({"stage": "build_pool", "specs": [strategies.strip_meta(s) for s in pool_specs]})
         pool, problems = build_pool(pool_specs, wd)
         res.count("pool-kernels", len(pool))
@@ -281,7 +295,7 @@ def shard(shard, nshards, npool, nhist, nsteps, ntsan, seed):
 
 def run(tier: str) -> int:
     run_ = Run(PROP, tier, "exploration", RULE)
-    npool, nhist, nsteps, ntsan = (3, 6, 25, 1) if tier == "quick" else (6, thorough(30), 60, 4)
+    npool, nhist, nsteps, ntsan = (4, 6, 25, 1) if tier == "quick" else (8, thorough(30), 60, 4)
     for part in run_shards(shard, 16, npool=npool, nhist=nhist, nsteps=nsteps, ntsan=ntsan, seed=verif_seed()):
         run_.merge(part)
     run_.assumptions = [
